@@ -6,8 +6,8 @@ import vlib
 
 META = {
     "category": "model_checking",
-    "text": "Presentation.tla transcribes the writer (Display for Label/Name, CharStr::display_quoted / display_unquoted, the ZonefileFmt and fmt::Display forms of Record and of TXT, HINFO, NS/CNAME/PTR/DNAME, MX and RFC 3597 generic data, the Simple / Tabbed / MultiLine FormatWriters with block parentheses, comments and newline()) and composes it with the reader machine of ZoneFile.tla; TLC checks Read(Render(Write(r, kind))) = <<r>> for every record of a field-kind grid over the 15 escape-relevant octets (labels and strings up to length 2 quick / 3 thorough, empty strings, root and multi-label names, classes, TTL bounds and unit multiples, generic data), all four forms, with and without origin (12.8k quick), the same law through the token route (record data as a token list read by the record-data scanners: IterScanner) and for label / character-string texts on their own (OwnedLabel::from_str, CharStr::from_str). Restricted-alphabet token fields: Presentation.tla has field kinds (CAA tag, u8 / u16 scanned digit by digit, IANA integers read by str::parse, type mnemonics / TYPEnnn, NSEC3 salt, hex data) with FieldAlphabet / Admitted(kind, v) = what the constructors and the wire parser admit, FieldWrite / FieldRead, and the law FieldRead(FieldWrite(v)) = v over everything admitted; carrier records (CAA, NSEC, TLSA, NSEC3PARAM, MX) take the fields through the whole-record and token-route laws at the boundary characters ('A' 'Z' 'a' 'z' '0' '9', tags to length 2 quick / 3 thorough and longer mixed-case ones) and boundary values (ends of the range, changes of the digit count, every type mnemonic and TYPEnnn next to them); for CAA, which the reader of ZoneFile.tla abstains on, a line reader built from its tokenizer, scan_ctr, scan_name and the field readers; values just outside an alphabet are cases too (expectation: the constructors refuse them). Zones: MC_PresentZone.tla is a state machine that writes a zone record by record (a writer per record with a kind of its own, or all records through one FormatWriter with newline() between them) and reads the file so far with a configured reader (origin, set_default_class, allow_invalid) after every step; invariant: every record comes back in order, whatever class / TTL / owner the reader remembers from earlier entries, except that the strict reader ends at the first record of another class (RFC 1035 5.2); 8.7k states quick (2 records), 3 records thorough. Every case of both grids is executed on the real library in both directions (the library's text and the specification's text are read back); a grid over a hand-assembled wire RDATA table of 33 record types (A ... SVCB/HTTPS incl. dohpath / ohttp, ZONEMD, unknown) x variants x four forms x origin is executed with the round-trip law as expectation, also through the token route. Every case carries one combination of alias routes: how the record is built (Record::new, From tuples, set_class, RecordHeader::into_record, Record::parse with RecordHeader::compose), how its data is built (wire, typed constructors incl. Txt::from_octets / from_slice / parse_rdata, CharStr / Txt / SvcParams builders with the typed SvcParam methods and getters, OctetsFrom), which type is written (ZoneRecordData, AllRecordData, a reference, parsed names, a FormatWriter of the harness) and how the reader is set up (From<&[u8]>, From<&str>, load, BufMut, extend_from_slice, Default + reserve). Recorded runs on random records (all 256 octet values, labels to 63, strings to 255 octets) and random zones (2-5 records, mixed or uniform classes, random reader configuration and constructor) are validated by TLC: the specification's reader, given the library's text, must return what the library's reader returned, and that must be what was written.",
-    "note": "Trusted: TLC, the transcriptions in Presentation.tla / ZoneFile.tla, the harness (incl. its cutting of the library's tokens into words for the token route of the type sweep). The library's text is not compared literally (spacing and escape style are free); both texts are compared through the readers. Per-type field layouts are not modelled here (Rdata.tla, C05): the type sweep uses hand-assembled wire data and states only the round-trip law; its deviation guards are grid cells. Records are compared with the library's own equality (names case-insensitively) plus class and TTL; zone outcomes are compared entry by entry on wire forms. The strict reader's same-class check is taken from the reader's documentation / ZoneFile.tla. The token route does not offer SvcParams (Scanner::scan_svcb_octets is documented as implemented by some scanners only). Admitted(kind, v) is bound to the library by building every carrier record both from its wire form and through the typed constructors (CaaTag::new / from_octets / from_slice, Caa::new, Tlsa::new, Nsec3param::new, Nsec3Salt::from_octets, RtypeBitmapBuilder); a value the specification does not admit but the library does is only reported when the round trip fails for it. u32 fields and RRSIG times reach their upper ends only in the type sweep (TLC integers are 32 bit); SVCB keyNNNNN, NAPTR / HINFO strings, algorithm numbers of DNSKEY / DS / RRSIG are covered by the type sweep and the character-string grid, not as field kinds. Eight defects are modelled as named deviations (known findings), among them D_caa_empty_tag (the constructors admit the empty CAA tag, which is written as nothing) and D_iterscanner_marker (IterScanner could not read the RFC 3597 generic form; fixed); the reader's (C07) are taken into account when predicting a misreading.",
+    "text": "Presentation.tla transcribes the writer (Display for Label/Name, CharStr::display_quoted / display_unquoted, the ZonefileFmt and fmt::Display forms of Record and of TXT, HINFO, NS/CNAME/PTR/DNAME, MX and RFC 3597 generic data, the Simple / Tabbed / MultiLine FormatWriters with block parentheses, comments and newline()) and composes it with the reader machine of ZoneFile.tla; TLC checks Read(Render(Write(r, kind))) = <<r>> for every record of a field-kind grid over the 15 escape-relevant octets (labels and strings up to length 2 quick / 3 thorough, empty strings, root and multi-label names, classes, TTL bounds and unit multiples, generic data), all four forms, with and without origin (12.8k quick), the same law through the token route (record data as a token list read by the record-data scanners: IterScanner) and for label / character-string texts on their own (OwnedLabel::from_str, CharStr::from_str). Restricted-alphabet token fields: Presentation.tla has field kinds (CAA tag, u8 / u16 scanned digit by digit, IANA integers read by str::parse, type mnemonics / TYPEnnn, NSEC3 salt, hex data) with FieldAlphabet / Admitted(kind, v) = what the constructors and the wire parser admit, FieldWrite / FieldRead, and the law FieldRead(FieldWrite(v)) = v over everything admitted; carrier records (CAA, NSEC, TLSA, NSEC3PARAM, MX) take the fields through the whole-record and token-route laws at the boundary characters ('A' 'Z' 'a' 'z' '0' '9', tags to length 2 quick / 3 thorough and longer mixed-case ones) and boundary values (ends of the range, changes of the digit count, every type mnemonic and TYPEnnn next to them); for CAA, which the reader of ZoneFile.tla abstains on, a line reader built from its tokenizer, scan_ctr, scan_name and the field readers; values just outside an alphabet are cases too (expectation: the constructors refuse them). Names at the length limits (PresentLimits.tla: the label-length shape family of the name checks -- three 63-octet labels and a rest, runs of one-octet labels, a 63-octet first / last label -- as names of Names.tla, judged by its ValidAbs): absolute names of 255 (quick) and 253 / 254 / 255 (thorough) wire octets as owner and inside NS / DNAME, MX, NSEC, SOA (mname, rname) and RRSIG (signer) data go through the whole-record law, the token route and the label-text law in all four forms; the same names spelled relative to the origin (they reach the limit only with the origin's labels appended) must read back equal (RelativeReadsEqual); names of 256 / 257 octets are outside the domain: the specification's text must be refused by the reader (TooLongRefused) and no constructor route may build the record. 32-bit fields: field kind u32 (a value is its four octets, decimal text by long division on 16-bit limbs, reader with checked multiplication), carriers SOA (serial, refresh, retry, expire, minimum) and RRSIG (original TTL, expiration, inception, plus type covered, algorithm, labels, key tag, Base 64 signature) with a line reader of their own (the reader of ZoneFile.tla abstains from 2^31 on), at 0, 1, 9 / 10, 99999 / 100000, 999999999 / 10^9, 2^31 - 1, 2^31, 2^31 + 1, 2^32 - 2, 2^32 - 1 in every field. Zones: MC_PresentZone.tla is a state machine that writes a zone record by record (a writer per record with a kind of its own, or all records through one FormatWriter with newline() between them) and reads the file so far with a configured reader (origin, set_default_class, allow_invalid) after every step; invariant: every record comes back in order, whatever class / TTL / owner the reader remembers from earlier entries, except that the strict reader ends at the first record of another class (RFC 1035 5.2); 8.7k states quick (2 records), 3 records thorough. Every case of both grids is executed on the real library in both directions (the library's text and the specification's text are read back); a grid over a hand-assembled wire RDATA table of 33 record types (A ... SVCB/HTTPS incl. dohpath / ohttp, ZONEMD, unknown) x variants x four forms x origin is executed with the round-trip law as expectation, also through the token route. Every case carries one combination of alias routes: how the record is built (Record::new, From tuples, set_class, RecordHeader::into_record, Record::parse with RecordHeader::compose), how its data is built (wire, typed constructors incl. Txt::from_octets / from_slice / parse_rdata, CharStr / Txt / SvcParams builders with the typed SvcParam methods and getters, OctetsFrom), which type is written (ZoneRecordData, AllRecordData, a reference, parsed names, a FormatWriter of the harness) and how the reader is set up (From<&[u8]>, From<&str>, load, BufMut, extend_from_slice, Default + reserve). Recorded runs on random records (all 256 octet values, labels to 63, strings to 255 octets) and random zones (2-5 records, mixed or uniform classes, random reader configuration and constructor) are validated by TLC: the specification's reader, given the library's text, must return what the library's reader returned, and that must be what was written.",
+    "note": "Trusted: TLC, the transcriptions in Presentation.tla / ZoneFile.tla, the harness (incl. its cutting of the library's tokens into words for the token route of the type sweep). The library's text is not compared literally (spacing and escape style are free); both texts are compared through the readers. Per-type field layouts are not modelled here (Rdata.tla, C05): the type sweep uses hand-assembled wire data and states only the round-trip law; its deviation guards are grid cells. Records are compared with the library's own equality (names case-insensitively) plus class and TTL; zone outcomes are compared entry by entry on wire forms. The strict reader's same-class check is taken from the reader's documentation / ZoneFile.tla. The token route does not offer SvcParams (Scanner::scan_svcb_octets is documented as implemented by some scanners only). Admitted(kind, v) is bound to the library by building every carrier record both from its wire form and through the typed constructors (CaaTag::new / from_octets / from_slice, Caa::new, Tlsa::new, Nsec3param::new, Nsec3Salt::from_octets, RtypeBitmapBuilder); a value the specification does not admit but the library does is only reported when the round trip fails for it. The record TTL column reaches 2^31 - 1 only (TLC integers are 32 bit; the u32 field kind covers the fields inside SOA / RRSIG data over the whole range); names at the limits are bound for the record types Presentation.tla models (owner, NS / CNAME / PTR / DNAME, MX, NSEC, SOA, RRSIG), not for the other name-bearing types of the type sweep (SRV, NAPTR, SVCB, MINFO ...: they share Scanner::scan_name and ToName::fmt_with_dot); SVCB keyNNNNN, NAPTR / HINFO strings, algorithm numbers of DNSKEY / DS / RRSIG are covered by the type sweep and the character-string grid, not as field kinds. Eight defects are modelled as named deviations (known findings), among them D_caa_empty_tag (the constructors admit the empty CAA tag, which is written as nothing) and D_iterscanner_marker (IterScanner could not read the RFC 3597 generic form; fixed); the reader's (C07) are taken into account when predicting a misreading.",
     "technique": "TLA+ spec (Presentation.tla + ZoneFile.tla; MC_Presentation field grid, MC_PresentZone zone state machine) + TLC exhaustive; spec->impl case replay in both directions over alias routes; impl->spec trace validation (records and zones)",
     "design_ref": "DESIGN.md §4 C06",
 }
@@ -38,7 +38,7 @@ def _groups_from_cases(ctx, res, path):
         ctx.coverage_actions[a] = (od + n, og + n)
 
 
-GROUPS = ["owner1", "owner2", "txt", "hinfo", "name", "mx", "generic", "ctt", "caa", "bitmap", "ints"]
+GROUPS = ["owner1", "owner2", "txt", "hinfo", "name", "mx", "generic", "ctt", "caa", "bitmap", "ints", "limits", "u32"]
 FIELD_TYPES = [257, 47, 52, 51]      # carriers of the restricted-alphabet token fields
 ZONE_ACTIONS = ["WriteRecordCat", "BeginZoneFmt", "WriteRecordFmt"]
 ZONE_CELLS = ["allow-mixed", "allow-same", "strict-mixed", "strict-same"]
@@ -104,6 +104,16 @@ def run(ctx):
     nadm = _count(ctx, gen, cases, ["adm"]).get("adm=False", 0)
     if nadm < 50:
         raise vlib.ToolError("no cases outside the constructor-admitted field values")
+    # vacuity guard of the names at the limits: names the reader must refuse
+    # (raw) and spellings relative to the origin (rel) were generated
+    nraw = nrel = 0
+    with open(cases) as f:
+        for line in f:
+            if '"grp":"limits"' in line:
+                nraw += '"raw":[' in line
+                nrel += '"rel":[' in line
+    if nraw < 20 or nrel < 20:
+        raise vlib.ToolError("limits group: too few over-long / relative cases (%d, %d)" % (nraw, nrel))
     ctx.require_actions(gen, ["route0=" + x for x in MK] + ["route1=" + x for x in MKD] + ["route2=" + x for x in WR])
     head = os.path.join(ctx.work, "head.ndjson")
     with open(cases) as f, open(head, "w") as g:
@@ -242,5 +252,6 @@ def run(ctx):
     ctx.assume("type sweep: hand-assembled wire RDATA per type; only the round-trip law is stated for it")
     ctx.assume("zones: pool of 6 records (3 classes, 5 TTLs, 4 owners, TXT/NS/MX/HINFO/generic), up to 2 (quick) / 3 (thorough) records per file; strict reader: the RFC 1035 5.2 same-class check is part of the expectation")
     ctx.assume("routes (record / data constructors, data types written, reader constructors) are aliases: one combination per case, spread over the grid")
-    ctx.assume("restricted-alphabet fields: CAA tag (strings over 'A' 'Z' 'a' 'z' '0' '9' to length 2 quick / 3 thorough, longer mixed-case tags, the characters just outside, the empty tag), u8 / u16 / IANA-integer fields at the ends of their ranges and where the digit count changes, every type mnemonic and TYPEnnn next to them in an NSEC bitmap, NSEC3 salts; carriers CAA, NSEC, TLSA, NSEC3PARAM, MX; u32 fields and RRSIG times only through the type sweep (TLC integers are 32 bit)")
+    ctx.assume("restricted-alphabet fields: CAA tag (strings over 'A' 'Z' 'a' 'z' '0' '9' to length 2 quick / 3 thorough, longer mixed-case tags, the characters just outside, the empty tag), u8 / u16 / IANA-integer fields at the ends of their ranges and where the digit count changes, every type mnemonic and TYPEnnn next to them in an NSEC bitmap, NSEC3 salts; carriers CAA, NSEC, TLSA, NSEC3PARAM, MX; u32 fields of SOA / RRSIG data as octet quadruples over the whole range; the record TTL column up to 2^31 - 1")
+    ctx.assume("names at the limits: labels of 'x'; wire lengths 255 / 256 quick, 253 .. 257 thorough; origin ex. for the relative spellings")
     ctx.assume("token route: the specification's tokens (field grid) and the library's tokens cut into words by the harness (type sweep) are read by IterScanner; SvcParams are outside it (Scanner::scan_svcb_octets is not implemented by IterScanner, documented)")
